@@ -91,7 +91,7 @@ def u_qty_loader(I):
     writes = [e for e in ctx.effects if e[0].startswith('write')]
     ctx.oblige('the loader keeps no state between calls: no write to the loader object, its class or module-level containers',
                z3.BoolVal(not writes), writes=str(writes))
-    check_outcome(I, out, raises={'InputDataError': need_err}, returns=posts, site='qty_loader.__call__')
+    check_outcome(I, out, raises={'*': need_err}, returns=posts, site='qty_loader.__call__')
     return {'inputs': {}}
 
 
